@@ -1,7 +1,7 @@
 (* C01 model, text layer: what happens to the characters of one text item (a property value, a label
    attribute) between the networkx GraphML writer and the networkx GraphML reader.
 
-   Pipeline in the code (fim/graph/networkx_property_graph.py:365-385, fim/graph/graph_util.py:38-66):
+   Pipeline in the code (fim/graph/networkx_property_graph.py:363-385, fim/graph/graph_util.py:38-66):
      nx.generate_graphml : xml.etree tostring (us-ascii, & < > escaped, non-ASCII as decimal character
                            references), then  str.splitlines()            -- et_escape, then
      '\n'.join(...)      : every line boundary becomes LF                 -- splitjoin
